@@ -563,7 +563,16 @@ package task
 //@   on call (mesos.Ranges).Min : assert cur && arg0 == rm
 //@   on aftercall (mesos.Ranges).Min : assert !haveMin && cut ; lastMin = result ; haveMin = true ; spanned = false
 //@   on call (*resources.RangeBuilder).Span when haveMin : assert arg1 == lastMin && arg2 == lastMin ; spanned = true
-//@   on call (*mesos.Resources).Subtract : assert haveMin && spanned ; haveMin = false ; cur = false
+//@   on call (*mesos.Resources).Subtract when !reqDone : assert haveMin && spanned ; haveMin = false ; cur = false
 //@   on call channel.NewBoundTcpEndpoint : assert !haveMin && arg0 == lastMin
 //@   loop 1 invariant !haveMin
 //@   ensures t != nil ==> !haveMin
+// "what is requested for all tasks launched on one offer does not exceed that offer": everything put into the task's
+// request - CPU, memory, static and dynamic ports, the executor's own resources - is taken off what is left of the offer
+// before the next task is matched against it
+//@   ghostvar allSub bool = false
+//@   ghostvar reqDone bool = false
+//@   ghostvar reqCell *mesos.Resources = nil
+//@   on call (*mesos.Resources).Add : reqCell = arg0 ; reqDone = true
+//@   on call (*mesos.Resources).Subtract : allSub = allSub || (reqDone && arg1 == deref(reqCell))
+//@   ensures t != nil ==> allSub
